@@ -66,3 +66,86 @@ def run(ctx):
                 ctx.instance("C21.1", "%s: checked conversion i128->i64 (%s)" % (i, c.loc()))
                 ctx.oblige(True, "C21.1", "%s:try_from#%d" % (i, c.ordinal), "")
     ctx.floor("C21.1", "accumulator narrowings (casts + checked conversions)", n_cast + n_checked, 2)
+
+    # ---- clause 3: aggregates fold the group's non-null values ----------------------------------------
+    # count(x), sum, avg, min, max, collect (plain and DISTINCT) ignore nulls.  Structurally: every value the aggregate executor
+    # obtains by evaluating the aggregated expression is null-tested before it is folded — a `match` on its variant (discriminant read)
+    # or a comparison with `Value::Null` — either on the value itself or, when a mapping closure returns it, in the `filter` /
+    # `filter_map` adaptor that consumes the mapped stream.
+    ctx.rule("C21.3", "every evaluation of the aggregated expression in execute_aggregate is null-tested (variant match or comparison) before it is folded")
+    from ..mirutil import peel_refs
+    ROOT = PREFIX + "execute_aggregate"
+    EV = "nervusdb_query::evaluator::evaluate_expression_value"
+
+    def tested(b, dl):
+        for blk in b.blocks:
+            for st in blk["s"]:
+                if st[0] == "a" and st[2][0] == "discr" and st[2][1][0] == dl:
+                    return "variant match"
+        for c2 in b.calls():
+            if c2.name.split("::")[-1] in ("eq", "ne") and "PartialEq" in c2.name:
+                for a in c2.args:
+                    l = op_local(a)
+                    if l is not None and peel_refs(b, l) == dl:
+                        return "comparison (%s)" % c2.name.split("::")[-1]
+        return None
+
+    def closure_tests_param(cid):
+        cb = F.bodies.get(cid)
+        if cb is None or cb.argc < 2:
+            return None
+        p = 2
+        # the parameter may be a reference: look for a discriminant read / eq on anything derived from it
+        for blk in cb.blocks:
+            for st in blk["s"]:
+                if st[0] == "a" and st[2][0] == "discr" and peel_refs(cb, st[2][1][0]) == p:
+                    return "variant match in %s" % cid.split("::")[-1]
+        for c2 in cb.calls():
+            if c2.name.split("::")[-1] in ("eq", "ne") and "PartialEq" in c2.name:
+                for a in c2.args:
+                    l = op_local(a)
+                    if l is not None and peel_refs(cb, peel_refs(cb, l)) == p:
+                        return "comparison in %s" % cid.split("::")[-1]
+        return None
+
+    n3 = 0
+    for i, b in sorted(F.bodies.items()):
+        if not (i == ROOT or b.root == ROOT):
+            continue
+        k = 0
+        for c in b.calls():
+            if c.name != EV:
+                continue
+            n3 += 1
+            dl = c.dest[0]
+            how = tested(b, dl)
+            if how is None and dl == 0 and b.root:
+                # the closure returns the value: find the adaptor fed by the `map(closure)` call in the parent chain
+                for pb in (F.bodies.get(b.parent or b.root), F.bodies.get(b.root)):
+                    if pb is None:
+                        continue
+                    for mc in pb.calls():
+                        if not any(pb.origin(op_local(a)) and pb.origin(op_local(a))[0] == "agg" and pb.origin(op_local(a))[1][2] == i
+                                   for a in mc.args if op_local(a) is not None):
+                            continue
+                        cur = mc.dest[0]
+                        for _ in range(4):
+                            nxt = [x for x in pb.calls() if x.args and op_local(x.args[0]) == cur]
+                            if not nxt:
+                                break
+                            x = nxt[0]
+                            if x.name.split("::")[-1] in ("filter", "filter_map") and len(x.args) > 1:
+                                o = pb.origin(op_local(x.args[1]))
+                                if o and o[0] == "agg" and o[1][1] == "closure":
+                                    how = closure_tests_param(o[1][2])
+                                    if how:
+                                        how = "stream adaptor: " + how
+                                break
+                            cur = x.dest[0]
+                    if how:
+                        break
+            ctx.instance("C21.3", "%s: evaluation at line %d null-tested: %s" % (i.split("::")[-1], c.line, how or "NO"))
+            ctx.oblige(how is not None, "C21.3", "%s:eval#%d-not-null-tested" % (i, k),
+                       "the aggregated expression's value is folded without a null test: nulls are counted / collected / compared like values", c.loc())
+            k += 1
+    ctx.floor("C21.3", "evaluations of the aggregated expression", n3, 12)
